@@ -10,7 +10,7 @@
            datatype.
    PART 4  the field store as a state machine with a validation level:
            Step(st, op) returns the SET of allowed outcomes of one public call
-           (Set / Get / Write / Str / Validate / ValidateField / Delete /
+           (Set / Add / Get / Write / Str / Validate / ValidateField / Delete /
            Clone / EditInPlace) -- relational where the property statements
            leave gfapy free.  The statements of C18 and C19 are then given as
            predicates over one transition (pre-state, call, outcome); MC_Fields
@@ -223,6 +223,14 @@ ExpectedSubtypes(v) == IF v.el = "int" /\ v.len >= 1 THEN Subtypes(MinOf(v.elems
 
 InvalidCls == {"wrongtype", "wrongsyntax", "outofrange"}
 Classes == {"valid"} \cup InvalidCls
+\* A further class that cannot be assigned but can ARISE: "inconsistent" -- a value that is a valid
+\* value of the field's datatype but breaks a rule of the LINE that relates several fields (a path
+\* with 3 segments and 1 overlap).  It arises when level 0 decodes an invalid encoded value
+\* leniently ("1M;2M" read as the single CIGAR 1M2M).  For the field it is a valid value (Get,
+\* Write, Str, ValidateField); Validate of the line may report the cross-field rule -- a report
+\* about the line, not a verdict on the value class.  (The valid representatives that are
+\* assigned are chosen consistent with their line.)
+Inconsistent(L) == {f \in DOMAIN L.fields : L.fields[f].cls = "inconsistent"}
 
 \* value classes that exist for a datatype (there is no integer i cannot hold, etc.)
 Ranged == {"B", "f", "position_gfa1", "position_gfa2"}      \* (f: the non-finite floats)
@@ -259,6 +267,25 @@ Step(s, op) ==
          IN IF op.c = "valid" THEN {Out(stored, "ok", FALSE, TRUE)}        \* never rejected
             ELSE IF L.lvl = 3 THEN {Out(s, "Error", FALSE, FALSE)}         \* reported at the assignment
             ELSE {Out(stored, "ok", FALSE, TRUE), Out(s, "Error", FALSE, FALSE)}
+    [] op.k = "add" ->
+         \* Multiline.add of the header: ONE MORE value for a tag (a first value when there is
+         \* none).  The field then holds every value added so far; it is valid iff each of them is,
+         \* so a valid addition leaves an invalid field invalid.  The addition is an assignment of
+         \* the added value: never rejected when valid, reported at the call at level 3 when not
+         \* -- with or without the optional datatype argument, whatever the tag held before.
+         LET cur == L.fields[op.f].cls
+             ncls == IF cur \in InvalidCls \/ (cur = "inconsistent" /\ op.c = "valid") THEN cur ELSE op.c
+             nf == Field(L.fields[op.f].dt, ncls, s.nv)
+             stored == [WithCp(s, op.t, [L EXCEPT !.fields[op.f] = nf,
+                                                  !.rep = IF op.c = "valid" THEN @ ELSE @ \ {op.f}])
+                          EXCEPT !.nv = s.nv + 1]
+             \* adding to a tag READS what the tag holds: as a Get may, the call may report an invalid
+             \* value assigned earlier (then nothing is added) -- a report of that value, not a
+             \* rejection of the one being added
+             early == IF cur \in InvalidCls THEN {Out(Reported(s, op.t, {op.f}), "Error", FALSE, FALSE)} ELSE {}
+         IN IF op.c = "valid" THEN {Out(stored, "ok", FALSE, TRUE)} \cup early
+            ELSE IF L.lvl = 3 THEN {Out(s, "Error", FALSE, FALSE)} \cup early
+            ELSE {Out(stored, "ok", FALSE, TRUE), Out(s, "Error", FALSE, FALSE)} \cup early
     [] op.k = "get" ->
          \* reading an invalid value may or may not report it.  At level 0 ("no validation:
          \* gfapy will try to accept any input", validation.rst) reading decodes an encoded
@@ -271,7 +298,7 @@ Step(s, op) ==
                     THEN {Out([WithCp(s, op.t, [L EXCEPT !.fields[op.f] = Field(@.dt, c, s.nv),
                                                          !.rep = @ \ {op.f}])
                                  EXCEPT !.nv = s.nv + 1], "ok", FALSE, TRUE)
-                          : c \in {"valid", L.fields[op.f].cls}}
+                          : c \in {"valid", "inconsistent", L.fields[op.f].cls}}
                     ELSE {})
          ELSE {Out(s, "ok", FALSE, FALSE)}
     [] op.k = "write" ->
@@ -291,14 +318,17 @@ Step(s, op) ==
                     THEN {Out([WithCp(s, op.t,
                                  [L EXCEPT !.fields = [f \in DOMAIN @ |->
                                                         IF f \in inv
-                                                        THEN Field(@[f].dt, IF v THEN "valid" ELSE @[f].cls, s.nv)
+                                                        THEN Field(@[f].dt, IF v = "same" THEN @[f].cls ELSE v, s.nv)
                                                         ELSE @[f]],
-                                           !.rep = IF v THEN {} ELSE inv])
-                                 EXCEPT !.nv = s.nv + 1], "ok", TRUE, TRUE) : v \in BOOLEAN}
+                                           !.rep = IF v = "same" THEN inv ELSE {}])
+                                 EXCEPT !.nv = s.nv + 1], "ok", TRUE, TRUE)
+                          : v \in {"valid", "inconsistent", "same"}}
                     ELSE {})
     [] op.k = "validate" ->
          LET inv == InvalidFields(L) IN
          IF inv = {} THEN {Out(s, "ok", FALSE, FALSE)}
+                          \* (a rule of the line relating several fields may be reported)
+                          \cup (IF Inconsistent(L) # {} THEN {Out(s, "Error", FALSE, FALSE)} ELSE {})
          ELSE {Out(Reported(s, op.t, inv), "Error", FALSE, FALSE)}
     [] op.k = "vfield" ->
          IF ~Has(L, op.f) THEN {Out(s, "ok", FALSE, FALSE), Out(s, "Error", FALSE, FALSE)}
@@ -324,7 +354,9 @@ Reports(o) == o.res = "Error" \/ o.mark
 
 \* C18: an invalid value assigned at level 3 is reported at the assignment, value unchanged
 PLevel3AtSet(s, op, o) ==
-  (op.k = "set" /\ op.c \in InvalidCls /\ Cp(s, op.t).lvl = 3) => (o.res = "Error" /\ o.st = s)
+  /\ (op.k = "set" /\ op.c \in InvalidCls /\ Cp(s, op.t).lvl = 3) => (o.res = "Error" /\ o.st = s)
+  /\ (op.k = "add" /\ op.c \in InvalidCls /\ Cp(s, op.t).lvl = 3) =>
+        (o.res = "Error" /\ Cp(o.st, op.t).fields = Cp(s, op.t).fields)
 \* C18: at level >= 2, no later than the next write of the field / of the line
 PLevel2AtWrite(s, op, o) ==
   LET L == Cp(s, op.t) IN
@@ -341,9 +373,13 @@ PValidNeverRejected(s, op, o) ==
   LET L == Cp(s, op.t) IN
   /\ (op.k = "set" /\ op.c = "valid") =>
         (o.res = "ok" /\ Cp(o.st, op.t).fields[op.f].cls = "valid")
+  /\ (op.k = "add" /\ op.c = "valid" /\ ~IsInvalid(L.fields[op.f])) =>
+        (o.res = "ok" /\ Cp(o.st, op.t).fields[op.f].cls \in {"valid", "inconsistent"})
   /\ (op.k \in {"get", "write", "vfield"} /\ Has(L, op.f) /\ ~IsInvalid(L.fields[op.f]))
         => (o.res = "ok" /\ ~o.mark)
-  /\ (op.k \in {"str", "validate"} /\ InvalidFields(L) = {}) => (o.res = "ok" /\ ~o.mark)
+  /\ (op.k = "str" /\ InvalidFields(L) = {}) => (o.res = "ok" /\ ~o.mark)
+  /\ (op.k = "validate" /\ InvalidFields(L) = {} /\ Inconsistent(L) = {}) => (o.res = "ok" /\ ~o.mark)
+  /\ (op.k = "validate" /\ InvalidFields(L) = {}) => ~o.mark
 \* only a reporting call adds to rep; a report concerns invalid fields only
 PRepSound(s, op, o) ==
   LET L == Cp(s, op.t)  M == Cp(o.st, op.t) IN
@@ -357,7 +393,7 @@ PCloneDetachedEqual(s, op, o) ==
     /\ o.st.o = s.o /\ o.st.g = s.g
 \* C19: an edit (in place, or through the API) changes only its target
 PFrame(s, op, o) ==
-  (op.k \in {"edit", "set", "delete", "get", "write", "str", "validate", "vfield"}) =>
+  (op.k \in {"edit", "set", "add", "delete", "get", "write", "str", "validate", "vfield"}) =>
     /\ op.t = "clone" => (o.st.o = s.o /\ o.st.g = s.g)
     /\ op.t = "orig" => o.st.c = s.c
 \* the Gfa writes what its connected line holds
@@ -437,6 +473,14 @@ HStep(h, op, refused, dtobs) ==
     [] op.k \in {"delete", "setnone"} -> IF h.present THEN HAbsent ELSE h
     [] op.k = "setdt" -> [h EXCEPT !.dt = op.t]
     [] OTHER -> h
+
+(* (b') A COPY OF THE LINE (clone(), the lines made by multiply() ...) starts with the tag in the
+   state it has on the original -- value AND datatype, also a datatype that is only declared -- and
+   from then on the two lines are independent: HStep is applied to the state of the line the call
+   was made on, the state of the other line does not change (C19: "shares no mutable state";
+   C20: the datatype in force for a line's tag is that line's own).                           *)
+HCopies(ho, hc) == [o |-> ho, c |-> hc]
+HCopy(h) == HCopies(h, h)
 
 (* (c) WRITE PATHS.  The law of C20 is about THE tag of THE line, not about one
    function: whichever public path writes a line that carries the tag -- the
